@@ -239,6 +239,50 @@ def rule_nowrite(ctx):
         ctx.paths_enumerated += len(paths)
         bad = any(pa.calls(method="set_value") or any(_new_of(e, "Write") for e in pa.events) for pa in paths)
         ctx.check(not bad, "C14.NOWRITE", f"{f.short}[{ci.name}]", "direct assignment raises no Write", "the value setter (or a function inlined from it) calls set_value / constructs Write", fi=f, text=f"setter-writes:{ci.name}")
+    _rule_nowrite_routes(ctx)
+
+
+def _rule_nowrite_routes(ctx):
+    """Every other driver-side assignment route: each property setter of the element and vector classes (bool_value,
+    selected_value(s), state_, enabled, ...) - followed through whatever it calls inside the property package - neither
+    calls set_value (the client-write entry that raises Write) nor constructs a Write."""
+    p = ctx.p
+    base, classes = element_classes(p)
+    sv = p.cls("indi.device.properties.instance.vectors.SwitchVector")
+    vmod = p.module("indi.device.properties.instance.vectors")
+    vclasses = [c for c in vmod.classes.values() if c.module is vmod and not c.name.startswith("_")]
+    n = 0
+    for ci in list(classes) + vclasses:
+        names = []
+        for k in ci.mro:
+            for s in getattr(k, "setters", {}):
+                if s not in names:
+                    names.append(s)
+        for name in names:
+            if name == "value" and ci in classes:
+                continue  # decided above
+            f = ci.find_setter(name)
+            if f is None or not f.module.name.startswith("indi.device.properties.instance"):
+                continue
+
+            def pol(fi, node):
+                return fi.module.name.startswith("indi.device.properties.instance") and fi.name != "set_value"
+
+            def hints(c, attr, ci=ci):
+                if attr == VEC and ci.name == "Switch":
+                    return sv
+                return None
+
+            try:
+                paths = run_method(p, f, self_val=Term("param", "self", hint=ci), opts={"inline": pol, "attr_hints": hints, "max_for": 1, "max_while": 1})
+            except Undecided as u:
+                ctx.undecided("C14.NOWRITE", f"{f.short}[{ci.name}]", f"assignment route not explored: {u}", fi=f)
+                continue
+            ctx.paths_enumerated += len(paths)
+            n += 1
+            bad = any(pa.calls(method="set_value") or any(_new_of(e, "Write") for e in pa.events) for pa in paths)
+            ctx.check(not bad, "C14.NOWRITE", f"{f.short}[{ci.name}.{name}]", "driver-side assignment raises no Write", f"assigning {ci.name}.{name} on the driver side goes through set_value / constructs a Write: Write handlers (which forward to the hardware or veto) run for an assignment the driver itself made", fi=f, text=f"route-writes:{ci.name}.{name}", witness=f"<{ci.name}>.{name} = ...")
+    ctx.floor("C14.NOWRITE", "other assignment routes (property setters)", n, 4)
 
 
 def rule_read(ctx):
